@@ -1265,6 +1265,126 @@ def consumer_stream(ctx, st, record, table=None):
                  sample=dict(cls=cls, params=g, ops=hist, mode=mode) if rng.random() < 0.02 else None)
 
 
+def gen_pol(rng):
+    """a polarisation argument: mostly a generic direction; zero vector (ZeroDivisionError), axis vectors, exact
+    multiples of one another, and magnitudes whose squared length underflows to 0.0 / overflows to inf"""
+    u = rng.random()
+    v = [rng.uniform(-1, 1), rng.uniform(-1, 1), rng.uniform(-1, 1)]
+    if u < 0.14:
+        return [0.0, 0.0, 0.0], 'zero'
+    if u < 0.24:
+        v = [0.0, 0.0, 0.0]
+        v[rng.randrange(3)] = rng.choice([1.0, -1.0, 2.0, 0.5, 3.0])
+        return v, 'axis'
+    if u < 0.32:
+        return [3.0 * (k := rng.choice([1.0, 2.0, 0.5, 7.0])), 4.0 * k, 0.0], 'pythagorean'
+    if u < 0.38:
+        return [c * 1e-170 for c in v], 'underflow'
+    if u < 0.44:
+        return [c * 1e160 for c in v], 'overflow'
+    if u < 0.50:
+        return [c * rng.choice([1e-30, 1e30, 1e-150, 1e150]) for c in v], 'scaled'
+    return v, 'generic'
+
+
+def polar_stream(ctx, st, record):
+    """K (round 6): `Vector3D.normalise`, `set_polarization` / `get_polarization` and the constructor's polarisation
+    calls (executed at their generated positions, so the *kind* of exception of a doubly-invalid construction is
+    compared too) against `normalise` / `setPolarization` / `getPolarization` / `prunCtor` of the model.  After the
+    constructor and after every operation of a mixed history (parameter assignments incl. invalid ones,
+    set_polarization incl. zero vectors): the outcome kind, get_polarization at two points (bit for bit) and the energy
+    density at one point."""
+    from raysect.core import Vector3D
+    rng = ctx.rng
+
+    def vec_judge(out, impl, what):
+        if isinstance(impl, str):
+            return None if out == impl else '%s model=%s impl=%s' % (what, out, impl)
+        try:
+            m = [b2f(t) for t in out.split()]
+        except ValueError:
+            return '%s model=%s impl=%r' % (what, out, impl)
+        if len(m) != 3 or any(f2b(a) != f2b(b) and not (a == b) for a, b in zip(m, impl)):
+            return '%s model=%r impl=%r' % (what, m, impl)
+        return None
+
+    # pure: Vector3D.normalise
+    for _ in range(ctx.n(300, 4000)):
+        v, kind = gen_pol(rng)
+        stt, r = call(lambda: tuple(Vector3D(*v).normalise()))
+        impl = list(r) if stt == 'ok' else stt
+        if isinstance(impl, list) and any(c != c for c in impl):
+            continue
+        st.add(['norm %s %s %s' % tuple(f2b(c) for c in v)],
+               lambda o, impl=impl: vec_judge(o[0], impl, 'normalise'), 'polarisation:normalise', dict(vector=v, kind=kind))
+        record['traces'] += 1
+        ctx.count('polar:normalise:' + kind)
+        ctx.case(key=('norm',) + tuple(f2b(c) for c in v), sample=dict(vector=v, result=impl) if rng.random() < 0.01 else None)
+    # stateful: constructor + mixed histories
+    for cls in PROFILES:
+        for _ in range(ctx.n(40, 500)):
+            args = specialise(rng, cls, gen_args(rng, cls))
+            bad_arg = None
+            if rng.random() < 0.15:
+                bad_arg = rng.choice([q for q in PARAMS[cls] if q not in UNSIGNED])
+                args[bad_arg] = gen_value(rng, cls, bad_arg, valid=False)
+            pol, pkind = gen_pol(rng)
+            pts = gen_points(rng, cls, args)
+            lines = ['pnew %s %s %s %s %s' % (cls, f2b(pol[0]), f2b(pol[1]), f2b(pol[2]),
+                                             ' '.join('%s %s' % (k, f2b(v)) for k, v in args.items()))]
+            stt, obj = call(construct, cls, args, pol)
+            expect = [('res', stt)]
+            kinds = ['ctor:' + pkind + (':bad-' + bad_arg if bad_arg else '') + '->' + stt]
+
+            def obs():
+                for q in pts:
+                    lines.append('pget %s %s %s' % tuple(f2b(c) for c in q))
+                    s2, r2 = call(lambda q=q: tuple(obj.get_polarization(*q)))
+                    expect.append(('vec', list(r2) if s2 == 'ok' else 'raised:' + s2))
+                lines.append('pdens %s %s %s' % tuple(f2b(c) for c in pts[0]))
+                expect.append(('dens', _v(obj.get_energy_density, *pts[0])))
+            state = dict(args)
+            if stt == 'ok':
+                obs()
+                for _k in range(rng.randint(1, 5)):
+                    if rng.random() < 0.5:
+                        v, k2 = gen_pol(rng)
+                        lines.append('ppol %s %s %s' % tuple(f2b(c) for c in v))
+                        s3 = apply_op(obj, cls, 'polarization', v)
+                        kinds.append('pol:' + k2)
+                    else:
+                        q, v = gen_op(rng, cls, rng.choice(PARAMS[cls]), state)
+                        lines.append('pset %s %s' % (q, f2b(v)))
+                        s3 = apply_op(obj, cls, q, v)
+                        if s3 == 'ok':
+                            state[q] = v
+                        kinds.append('set:' + q + ('' if s3 == 'ok' else '!'))
+                    expect.append(('res', s3))
+                    obs()
+
+            def judge(outs, expect=list(expect)):
+                for o, (kind, e) in zip(outs, expect):
+                    if kind == 'res':
+                        if o != e:
+                            return 'outcome model=%s impl=%s' % (o, e)
+                    elif kind == 'vec':
+                        why = vec_judge(o, e, 'get_polarization')
+                        if why:
+                            return why
+                    else:
+                        try:
+                            m = b2f(o)
+                        except ValueError:
+                            return 'energy_density model=%s impl=%r' % (o, e)
+                        if isinstance(e, str) or not close(m, e, 1e-9, 1e-300):
+                            return 'energy_density model=%r impl=%r' % (m, e)
+                return None
+            st.add(lines, judge, 'polarisation:' + cls, dict(cls=cls, args=args, polarization=pol, lines=lines[1:]))
+            record['traces'] += len(expect)
+            ctx.count('polar:' + kinds[0].split('->')[0].split(':bad-')[0] + '->' + stt)
+            ctx.case(key=('polar', cls) + tuple(kinds), sample=dict(cls=cls, ops=kinds) if rng.random() < 0.02 else None)
+
+
 def integrals(ctx):
     """S: cross-section / volume integrals of the real energy density"""
     rng = ctx.rng
@@ -1378,6 +1498,7 @@ MODULES = [
     ('Cherab.Props.C18TableGetters', 'Cherab/Audit/C18TableGetters.lean', 'getters'),
     ('Cherab.Props.C18TableAtomic', 'Cherab/Audit/C18TableAtomic.lean', 'atomic'),
     ('Cherab.Props.C18TableFresh', 'Cherab/Audit/C18TableFresh.lean', 'any'),
+    ('Cherab.Props.C18Polar', 'Cherab/Audit/C18Polar.lean', None),
 ]
 
 
@@ -1599,7 +1720,7 @@ def run(ctx):
                     'Mathlib: integral_gaussian, integral_prod_mul, interval-integral change of variables (C18Real.lean); erf defined as 2/√π ∫₀ˣ e^{-t²}',
                     'raysect Constant3D / ConstantVector3D / MultiplyScalar3D (normalisation * distribution) and Cylinder/translate are not modelled beyond value*function and (z0, height, radius)',
                     'quadrature oracles: tensor Gauss–Legendre (160² / 72³ nodes) on a shape-agnostic extent; composite 16-point rule for bin integrals']
-    ctx.assumptions += ['finite positive widths/energies; bins passed as Python ints; polarisation is compared only through the direct fresh-object oracle (no model)',
+    ctx.assumptions += ['finite positive widths/energies; bins passed as Python ints; polarisation: direct fresh-object oracle (S) and, since round 6, the Lean normalise / setPolarization / prunCtor (K stream polarisation, bit-exact; NaN components skipped)',
                         'float rounding is not modelled by the theorems: the constant-spectrum sum, the tiling and the segment count are monitored directly on the implementation']
     # 1. translator
     table, changed = laser_edges.generate()
@@ -1623,7 +1744,7 @@ def run(ctx):
     erf_stream(ctx, st, record)
     import traceback
     for name, fn in (('targeted', lambda: targeted(ctx, st, record, exp)), ('defaults', lambda: defaults_stream(ctx, st, record, dflt)),
-                     ('histories', lambda: histories(ctx, st, record)), ('attached', lambda: attached_stream(ctx, st, record)), ('consumer', lambda: consumer_stream(ctx, st, record, table)), ('copies', lambda: copies_stream(ctx, st, record)),
+                     ('histories', lambda: histories(ctx, st, record)), ('attached', lambda: attached_stream(ctx, st, record)), ('consumer', lambda: consumer_stream(ctx, st, record, table)), ('copies', lambda: copies_stream(ctx, st, record)), ('polarisation', lambda: polar_stream(ctx, st, record)),
                      ('segments', lambda: segments_stream(ctx, st, record)), ('spectra', lambda: spectra_stream(ctx, st, record, table)),
                      ('integrals', lambda: integrals(ctx))):
         try:
